@@ -18,6 +18,8 @@ FAMILY_OF = {
 }
 
 QUICK_BUDGET_S = 900
+# property -> extraction items whose translation its theorems are stated about
+TRANSLATED = {'C17': ('calendar_src', 'extract_calendar', 'calendar.py'), 'C18': ('query_chain', 'extract_query')}
 
 
 CASE_TIMEOUT = float(os.environ.get('VERIF_CASE_TIMEOUT', '20'))
@@ -171,6 +173,11 @@ def run(prop, tier, replay):
         proof_broken = {'stage': 'axiom audit', 'undischarged': sorted(set(obligations) - set(discharged)), 'detail': detail}
     if not obligations:
         raise MachineryError(f'no theorems found for {prop}')
+    # translation ties: when the translator cannot read the current source (it then falls back to the pinned translation), the theorems
+    # about the translated source no longer speak about the code that is there - for that property the tie is broken
+    missed = [m for m in ((b.get('extract') or {}).get('miss') or []) if m.split(':')[0] in TRANSLATED.get(prop, ())]
+    if missed and not proof_broken:
+        proof_broken = {'stage': 'translation', 'miss': missed}
     rechecked = None
     if tier == 'thorough' and b.get('prop_ok') and not replay:
         ok, tail = common.recheck(prop)
